@@ -79,7 +79,7 @@ PROPS = {
         'uniformly weighted (70%) or uniformly unweighted histories', assumptions=COMMON_ASSUME,
     ),
     'C09': dict(
-        extra_modules=['GraphrsModel.Props.C09Model'],
+        extra_modules=['GraphrsModel.Props.C09Model', 'GraphrsModel.Props.C12Weighted'],
         gens=[('store', 'degrees', 3000, 40000, 12)],
         spec_fields=[r'cnt', r'deg', r'indeg', r'outdeg', r'wdeg', r'windeg', r'woutdeg', r'degall', r'indegall',
                      r'outdegall', r'wdegall', r'windegall', r'woutdegall', r'dens:q', r'dc:q', r'mat'],
@@ -238,7 +238,7 @@ LOUV_RULE = ('random graphs of all 8 kinds with 2..size nodes and at least one e
 
 PROPS.update({
     'C12': dict(
-        extra_modules=['GraphrsModel.Props.C09Model'],
+        extra_modules=['GraphrsModel.Props.C09Model', 'GraphrsModel.Props.C12Weighted'],
         gens=[('mod', 'small', 3000, 50000, 7)],
         spec_fields=[r'isp', r'mod:q'], model_fields=[r'build', r'isp', r'mod:q'], impl_checks=[('defaultres', '1')],
         nontrivial=lambda req, I: I.get('isp') == '1' and I.get('mod:q') not in ('nan', None),
